@@ -57,7 +57,7 @@ DISCARD_OR_IGNORE = frozenset({'discard', 'ignore', 'withdraw', 'reset'})
 
 def name(code: int | None) -> str:
     if code is None:
-        return 'NONE'
+        return 'ATTRIBUTE_LIST'
     return NAMES.get(code, 'UNKNOWN')
 
 
